@@ -10,4 +10,8 @@ CONSTANTS
   Clk0s = {0, 1}
   MaxEv = 4
   FilterAverage = 20
+  Classes <- ClassesAll
+  StepAt = {}
+  MaxInDo = 0
+  EmitMinInDo = 0
 INVARIANTS Emit
